@@ -6,7 +6,7 @@ mkdir -p $V/bin $V/logs
 ( cd $V/engine && GOFLAGS=-mod=mod GOPROXY=off GOSUMDB=off GOTOOLCHAIN=local go build -o $V/bin/goitsym . ) || exit 2
 for p in $PROPS; do
   s=$(date +%s)
-  $V/bin/goitsym check --verif $V --property $p --tier $T > $V/logs/$T-$p.log 2>&1
+  $V/bin/goitsym check --verif $V --repo ${VP_RUN_REPO:-/repo} --property $p --tier $T > $V/logs/$T-$p.log 2>&1
   e=$?
   echo "$p exit=$e wall=$(( $(date +%s) - s ))s $(grep '^property' $V/logs/$T-$p.log | cut -c1-220)"
   grep '^harness' $V/logs/$T-$p.log | cut -c1-260
